@@ -1161,6 +1161,16 @@ func (e *Engine) ptrEq(x, y PtrV) *Term {
 		}
 		return Or(And(x.Nil, y.Nil), And(Not(x.Nil), Not(y.Nil), same))
 	}
+	// elements of a slice of external pointers (isExternalPtr) are identities: two of them, or
+	// one of them and a pointer this function stored into such a slice, are equal when their
+	// identity terms are
+	if len(x.Path) == 0 && len(y.Path) == 0 && (e.symElemObj[x.Obj] || e.symElemObj[y.Obj]) {
+		rx, okx := e.ptrRefByObj[x.Obj]
+		ry, oky := e.ptrRefByObj[y.Obj]
+		if okx && oky {
+			return Or(And(x.Nil, y.Nil), And(Not(x.Nil), Not(y.Nil), Eq(rx, ry)))
+		}
+	}
 	// distinct executor objects never alias
 	return And(x.Nil, y.Nil)
 }
